@@ -133,7 +133,14 @@ def refreshSpecWhy (i : Nat) (before : ListObs) (f : Fetch) (attempted : Bool) (
     | .body data _ =>
       if after.checksum == before.checksum then
         (if after.rewritten || after.file != before.file then some "unchanged-checksum-rewritten"
-         else if after.count != before.count then some "unchanged-checksum-count-moved" else none)
+         else if after.count != before.count then some "unchanged-checksum-count-moved"
+         -- the server's CURRENT body is acceptable and is not the version that is stored: a
+         -- refresh that went through must not leave the old version in place (e.g. by trusting
+         -- a "not modified" answer it provoked itself)
+         else if (splitOn nl data).all (fun l => decide (l.length < maxToken)) &&
+             crcLines 0 (specLines data) != before.checksum then
+           some "successful-refresh-kept-stale-version"
+         else none)
       else if after.file != some (normalForm data) then
         -- a refresh may still fail for a reason the property does not list (e.g. a line too
         -- long); then nothing may change
